@@ -257,8 +257,68 @@ func diffLine(a, b string) string {
 	return fmt.Sprintf("lengths %d vs %d lines", len(la), len(lb))
 }
 
+// c19PrefixKeys: hash literals whose unquoted keys are prefixes of one another, with
+// values whose texts continue them: any ordering of the pairs that is not a total
+// order of (key, value) shows as different programs or host-call orders.
+func c19PrefixKeys(c *ev.Ctx) {
+	keys := []string{"1", "12", "123", "a", "ab", "abc", "1.5", "1.55"}
+	vals := []string{"2", "23", "3", "34", "v(1)", "v(2)", "bc(1)", "c(1)", "b", "5", "55"}
+	var scripts []string
+	for i, k1 := range keys {
+		for j, k2 := range keys {
+			if i >= j {
+				continue
+			}
+			for _, v1 := range vals {
+				for _, v2 := range vals {
+					scripts = append(scripts, fmt.Sprintf("a = 1; ab = 2; abc = 3; b = 4; function bc(x) { return v(x + 10); } function c(x) { return v(x + 20); } h = {%s: %s, %s: %s}; return [h, keys(h)];", k1, v1, k2, v2))
+				}
+			}
+		}
+	}
+	step := 1
+	preps := c.Pick(16, 32)
+	c.ParFor(len(scripts)/step, func(q int) {
+		s := scripts[q*step]
+		id := fmt.Sprintf("prefix/%d", q*step)
+		if !c.Want(id) {
+			return
+		}
+		c.Case(s, true)
+		seen := map[string]bool{}
+		for k := 0; k < preps; k++ {
+			seen[c19Transcript(s, nil, nil, false)] = true
+		}
+		if len(seen) > 1 {
+			var two []string
+			for t := range seen {
+				two = append(two, t)
+			}
+			c.Violation(id, "hash literal with prefix-related keys", map[string]interface{}{"summary": fmt.Sprintf("%s: %d different (program, transcript) pairs over several preparations; first difference: %s", s, len(seen), diffLine(two[0], two[1])), "script": s})
+		}
+	})
+}
+
 func c19Fixed(c *ev.Ctx) {
+	c19PrefixKeys(c)
+	// known finding: a format verb that prints an address
+	if c.Want("probe:sprintf-pointer-verb") {
+		seen := map[string]bool{}
+		for k := 0; k < 8; k++ {
+			if evr, err := eng.New(`x = [1, 2]; y = [3]; return sprintf("%p %p", x, y);`, eng.Options{NoHook: true}); err == nil {
+				junk := make([][]byte, k*3)
+				for q := range junk {
+					junk[q] = make([]byte, 64+q)
+				}
+				seen[evr.Exec(nil).Desc()] = true
+			}
+		}
+		c.Probe("sprintf-pointer-verb", len(seen) > 1, "`sprintf(\"%p\", [1, 2])` prints a memory address that differs between evaluations", map[string]interface{}{"script": `return sprintf("%p", [1, 2]);`})
+	}
 	cases := []string{
+		`{"a":1,"b":2}(3);`,
+		`h = {"k": 1}; return h.{"a":1,"b":2,"c":3};`,
+		`return {"z":1,"y":2,"x":3,"w":4}(1, 2);`,
 		`return {1:"a","1":"b",1.0:"c"};`,
 		`return keys({1:"a","1":"b",1.0:"c", "0": 1, 0: 2});`,
 		`r = ""; foreach k, v1 in {2:"a","2":"b",2.0:"c"} { r = r + type(k) + v1; } return r;`,
